@@ -434,7 +434,85 @@ pub fn run_j(o: &Opts) {
     sink.finish(&o.stats, "C07j: random life-cycle histories (begin / pn / frame / trivial / build / build_trivial / abandon, interleaved with acklargest / acked / lost / rotate / tick) on a real ArcSentJournal<u32> under tokio paused time, state read from Debug output; non-trivial = at least one abandoned guard, two built packets and one rotate-guard operation; distinct by transcript hash");
 }
 
-pub const RUNS: &[(&str, fn(&Opts))] = &[("C07pn", run_pn), ("C07j", run_j)];
+
+// ------------------------------------------------------------------------------------------------
+// C07r: receiver side, real ArcRcvdJournal::{decode_pn, on_rcvd_pn} + queue rotation
+
+fn rcvd_offset(j: &ArcRcvdJournal) -> u64 {
+    let d = format!("{:?}", j);
+    let p = d.find("offset: ").map(|p| p + 8).unwrap_or(0);
+    let e = d[p..].find(|c: char| !c.is_ascii_digit()).map(|e| e + p).unwrap_or(d.len());
+    d[p..e].parse().unwrap_or(u64::MAX)
+}
+
+pub fn run_r(o: &Opts) {
+    let mut sink = Sink::new_with_stats(&o.out, &o.stats);
+    for i in 0..o.cases {
+        if let Some(k) = o.only_case { if k != i { continue; } }
+        let mut rng = Rng::new(o.seed, i);
+        sink.case(&format!("{}", i));
+        let j = ArcRcvdJournal::with_capacity(rng.range(0, 8) as usize, None);
+        let mut registered = std::collections::BTreeSet::<u64>::new();
+        let mut largest = 0u64; // harness's own view of queue.largest(), only to aim the generator
+        let mut ack_pn = 0u64;
+        let (mut n_dup, mut n_old, mut n_ok) = (0, 0, 0);
+        for _ in 0..rng.range(5, 50) {
+            match rng.below(10) {
+                0..=4 => {
+                    // a packet arrives: aim at something near the window, send it as the peer would (wire form)
+                    let target = match rng.below(6) { 0 => largest, 1 => largest + rng.below(5), 2 => largest.saturating_sub(1 + rng.below(6)), 3 => rng.below(largest + 2), 4 => largest + rng.below(200), _ => *registered.iter().nth(rng.below(registered.len().max(1) as u64) as usize).unwrap_or(&0) };
+                    let v = *rng.pick(&[8u64, 16, 16, 24, 32]);
+                    let bits = v;
+                    let e = if rng.chance(1, 8) { mk(v, rng.next_u64() & ((1u64 << bits) - 1)) } else { mk(v, target & ((1u64 << bits) - 1)) };
+                    let op = format!("decpn {}", show(e).replace(':', " "));
+                    sink.pending(&op);
+                    let r = catch(|| j.decode_pn(e));
+                    let obs = match &r {
+                        Ok(Ok(pn)) => {
+                            let pn = *pn;
+                            n_ok += 1;
+                            if registered.contains(&pn) { sink.monitor_fail("accepted_twice", &format!("decode_pn accepted pn {} which was already registered with on_rcvd_pn", pn)); }
+                            format!("ok {}", pn)
+                        }
+                        Ok(Err(InvalidPacketNumber::TooOld)) => { n_old += 1; "TooOld".into() }
+                        Ok(Err(InvalidPacketNumber::Duplicate)) => { n_dup += 1; "Dup".into() }
+                        Ok(Err(InvalidPacketNumber::TooLarge)) => "TooLarge".into(),
+                        Err(m) => site(m),
+                    };
+                    sink.line(&op, &obs);
+                    // like the real packet path: a successfully decoded (and authenticated) packet is registered
+                    if let Ok(Ok(pn)) = r { if pn < largest + 300 && rng.chance(4, 5) {
+                        j.on_rcvd_pn(pn, false, Duration::from_millis(10));
+                        registered.insert(pn); largest = largest.max(pn + 1);
+                        sink.line(&format!("rcvd {}", pn), "ok");
+                    } }
+                }
+                5..=6 => {
+                    // registration without a preceding decode (API allows it), bounded jump
+                    let pn = match rng.below(3) { 0 => largest + rng.below(40), 1 => rng.below(largest + 1), _ => largest };
+                    j.on_rcvd_pn(pn, false, Duration::from_millis(10));
+                    if pn >= rcvd_offset(&j) { registered.insert(pn); largest = largest.max(pn + 1); }
+                    sink.line(&format!("rcvd {}", pn), "ok");
+                }
+                _ => {
+                    // make the queue rotate: send an ACK in packet `ack_pn`, have it acknowledged
+                    if largest == 0 { continue; }
+                    ack_pn += 1;
+                    let upto = if rng.chance(1, 2) { largest - 1 } else { rng.below(largest) };
+                    if j.gen_ack_frame_util(ack_pn, upto, tokio::time::Instant::now(), 1200).is_ok() {
+                        let f = AckFrame::new(VarInt::from_u64(ack_pn).unwrap(), VarInt::from_u32(0), VarInt::from_u32(0), vec![], None);
+                        j.on_rcvd_ack(&f);
+                    }
+                    sink.line("slide", &format!("off={}", rcvd_offset(&j)));
+                }
+            }
+        }
+        if n_dup > 0 && n_old > 0 && n_ok > 1 { sink.nontrivial(); }
+    }
+    sink.finish(&o.stats, "C07r: packets (wire-form packet numbers aimed at the window edges, duplicates and old numbers) decoded by a real ArcRcvdJournal::decode_pn, registered with on_rcvd_pn, queue rotated through gen_ack_frame_util + on_rcvd_ack (offset read from Debug output); non-trivial = at least one Duplicate, one TooOld and two accepted numbers; distinct by transcript hash");
+}
+
+pub const RUNS: &[(&str, fn(&Opts))] = &[("C07pn", run_pn), ("C07j", run_j), ("C07r", run_r)];
 
 #[allow(dead_code)]
-fn _unused() { let _ = unhex("-"); let _: Option<(ArcRcvdJournal, InvalidPacketNumber)> = None; }
+fn _unused() { let _ = unhex("-"); }
